@@ -23,7 +23,9 @@ Inductive op :=
 | OAny | OIs (e : N) | OClone | OSize | OIsEmpty | OToSlice | OForEach (n : nat)
 | OEncode | ODecode (b : list N)
 (* OrderedMap only *)
-| OSet (k v : N) | OGet (k : N) | OMDelete (k : N) | OHead | OTail | OPairs (n : nat) | ORevPairs (n : nat) | OMClone.
+| OSet (k v : N) | OGet (k : N) | OMDelete (k : N) | OHead | OTail | OPairs (n : nat) | ORevPairs (n : nat) | OMClone
+(* iteration whose consumer mutates the receiver (scripted per invocation): OrderedMap.ForEach/ForEachReverse, Set.ForEach/Range *)
+| OForEachRe (rev : bool) (sc : list (list mop * bool)) | OSForEachRe (sc : list (list mop * bool)).
 
 Inductive out :=
 | RUnit | RBool (b : bool) | RNat (n : nat) | ROpt (o : option N) | ROptP (o : option (N * N))
@@ -62,6 +64,9 @@ Definition step (s : omap) (o : op) : omap * out :=
   | OPairs n => let '(v, b) := visit_until n (om_list s) in (s, RPairs v b)
   | ORevPairs n => let '(v, b) := visit_until n (om_rlist s) in (s, RPairs v b)
   | OMClone => (s, RPairs (om_list (om_clone s)) true)
+  | OForEachRe rev sc =>
+      let '(s', v, b) := (if rev then om_foreachrev_re s sc else om_foreach_re s sc) in (s', RPairs v b)
+  | OSForEachRe sc => let '(s', v, b) := om_foreach_re s sc in (s', RVisit (map fst v) b)
   end.
 
 Definition optN_eqb (a b : option N) : bool :=
